@@ -58,7 +58,12 @@ class Driver:
         return self.ex.deref(self.node_call('key', [noderef]))
 
     def value_of(self, noderef):
-        return self.ex.deref(self.node_call('value', [noderef]))
+        v = self.ex.deref(self.node_call('value', [noderef]))
+        # `*node` (Deref) must name the same value as value()
+        w = self.ex.deref(self.ex.call(f'<{self.NODE}<K, N, E> as Deref>::deref', [noderef]))
+        if not _same(v, w):
+            return ['deref-differs', v, w]
+        return v
 
     # ---- handle expressions: int | ['clone', h] | ['out', h, idx] | ['in', h, idx] | ['adj', h, idx]
     #      | ['find_out', h, key] | ['find_in', h, key] | ['find_adj', h, key] | ['graph', key]
@@ -138,7 +143,12 @@ class Driver:
     def edge_triple(self, e):
         """Edge value -> (src key, dst key, value)"""
         ec = Cell(e)
-        return [self.key_of(Ref(ec, (('f', 0),))), self.key_of(Ref(ec, (('f', 1),))), e.f[2]]
+        # through the accessor methods (source(), target(), value()), the API a user reads an edge with
+        ep = f'{self.fl}::node::Edge::<K, N, E>'
+        s = self.ex.call(f'{ep}::source', [Ref(ec)])
+        t = self.ex.call(f'{ep}::target', [Ref(ec)])
+        v = self.ex.call(f'{ep}::value', [Ref(ec)])
+        return [self.key_of(s), self.key_of(t), self.ex.deref(v)]
 
     def adj_list(self, noderef, kind):
         out = []
@@ -520,8 +530,13 @@ class Driver:
         self.ex.drop(c.v)
         return o
 
-    def op_g_new(self):
-        self.graph = Cell(self.gcall('new', []))
+    def op_g_new(self, how=None):
+        if how == 'default':
+            self.graph = Cell(self.ex.call(f'<{self.GRAPH}<K, N, E> as Default>::default', []))
+        elif how == 'with_capacity':
+            self.graph = Cell(self.gcall('with_capacity', [4]))
+        else:
+            self.graph = Cell(self.gcall('new', []))
         return 'ok'
 
     def op_g_insert(self, i):
@@ -532,8 +547,11 @@ class Driver:
         r = self.gcall('get', [Ref(self.graph), Ref(Cell(self.val(k)))])
         return None if r.variant == 0 else self.node_obs(r.f[0])
 
-    def op_g_index(self, k):
-        r = self.ex.call(f'<{self.GRAPH}<K, N, E> as Index<K>>::index', [Ref(self.graph), self.val(k)])
+    def op_g_index(self, k, by_ref=False):
+        if by_ref:
+            r = self.ex.call(f"<{self.GRAPH}<K, N, E> as Index<&'a K>>::index", [Ref(self.graph), Ref(Cell(self.val(k)))])
+        else:
+            r = self.ex.call(f'<{self.GRAPH}<K, N, E> as Index<K>>::index', [Ref(self.graph), self.val(k)])
         n = self.ex.deref(r)
         return {'alias': self.alias_of(n), 'key': self.key_of(r), 'value': self.value_of(r)}
 
